@@ -332,7 +332,31 @@ pub fn drive<C: Check>(o: &Opts) -> i32 {
     let accs: Mutex<Vec<WorkerAcc>> = Mutex::new(vec![]);
     let want_records = o.records_out.is_some();
 
+    // wall-clock stall detector: the only use of a real clock that can influence the outcome, and it can
+    // only ever produce a harness error (exit 2), never a VIOLATION.  A run on the real Vec backend that does
+    // not return (the launch watchdog only exists on the simulated device) ends up here.
+    let progress = AtomicU64::new(0);
+    let finished = std::sync::atomic::AtomicBool::new(false);
+    let workers_left = AtomicU64::new(o.workers.max(1) as u64);
     std::thread::scope(|sc| {
+        sc.spawn(|| {
+            let mut last = 0u64;
+            let mut idle = 0u32;
+            while !finished.load(Ordering::Relaxed) {
+                std::thread::sleep(std::time::Duration::from_millis(500));
+                let now = progress.load(Ordering::Relaxed);
+                if now == last {
+                    idle += 1;
+                } else {
+                    idle = 0;
+                    last = now;
+                }
+                if idle >= 360 {
+                    eprintln!("HARNESS-ERROR: property={} no simulated run completed for 180 s of wall-clock time (a call on the real backend does not return?); last started run index <= {}", id, next.load(Ordering::Relaxed));
+                    std::process::exit(2);
+                }
+            }
+        });
         for _ in 0..o.workers.max(1) {
             sc.spawn(|| {
                 let mut acc = WorkerAcc::default();
@@ -345,6 +369,7 @@ pub fn drive<C: Check>(o: &Opts) -> i32 {
                     let mut r = Rng::new(wseed);
                     let case = C::generate(&mut r, o.tier);
                     let out = run_case::<C>(&case, sseed, None, false);
+                    progress.fetch_add(1, Ordering::Relaxed);
                     acc.runs += 1;
                     if let Some(e) = out.harness_error {
                         acc.harness_errors.push((i, e));
@@ -394,6 +419,9 @@ pub fn drive<C: Check>(o: &Opts) -> i32 {
                     }
                 }
                 accs.lock().unwrap().push(acc);
+                if workers_left.fetch_sub(1, Ordering::Relaxed) == 1 {
+                    finished.store(true, Ordering::Relaxed);
+                }
             });
         }
     });
